@@ -247,6 +247,7 @@ func main() {
 			writeIncludeCell(*leafOut, bt, f)
 			writeApplyGC(*leafOut, bt, f)
 			writeModifyCell(*leafOut, bt, f)
+			writeRangeClosures(*leafOut, bt, f)
 		}
 	}
 	sort.Strings(f.Unavailable)
